@@ -116,9 +116,10 @@ def build(point):
     """point: list of (setting, source). returns (args, env, expected: setting -> set of acceptable values)"""
     args, env, clo = [], {}, []
     by_setting = {}
-    for setting, source in point:
+    for elem in point:
+        setting, source = elem[0], elem[1]
         s = SETTINGS[setting]
-        v = s["values"][source]
+        v = elem[2] if len(elem) > 2 else s["values"][source]
         by_setting.setdefault(setting, []).append((source, v))
         if source == "cmdline" or source == "ini":
             args += s[source](v)
@@ -180,6 +181,14 @@ def main():
         for k in range(1, len(srcs) + 1):
             for sub in itertools.combinations(srcs, k):
                 points.append([(setting, src) for src in sub])
+    # 1b. the higher source names exactly the built-in default while a lower one names something else: the
+    # explicitly given default must still win (a resolver that treats "equals the default" as "not given" loses it)
+    for setting, s in SETTINGS.items():
+        for high in ("cmdline", "ini"):
+            if high not in s or not s["default"] or s["default"].startswith("<"): continue
+            for low in ("env", "clo", "clo_ini"):
+                if low in s["values"]:
+                    points.append([(setting, high, s["default"]), (setting, low)])
     # 2. pairs of settings with all source pairs (thorough: triples too)
     names = [n for n in SETTINGS if SETTINGS[n].get("pairs", True)]
     for s1, s2 in itertools.combinations(names, 2):
@@ -250,7 +259,7 @@ def main():
             for setting, s in SETTINGS.items():
                 got = s["observe"](o)
                 if got not in c["expected"][setting]:
-                    srcs_here = {src for st, src in c["point"] if st == setting}
+                    srcs_here = {e[1] for e in c["point"] if e[0] == setting}
                     ident = "precedence-" + setting
                     if {"ini", "clo_ini"} <= srcs_here and got == s["values"]["clo_ini"]:
                         ident = "cmdline-ini-vs-commandline-options-ini-" + setting    # both are --pika:ini entries, the one from the environment string wins (keyed per setting: a known finding for one setting must not hide another)
